@@ -512,7 +512,7 @@ class Executor:
                 tottime = _resolve_times([sp["tottime"]], times, hs, t0, None, H)[0]
                 stop["tottime"] = tottime
             if "maxit" in sp:
-                stop["maxit"] = int(sp["maxit"])
+                stop["maxit"] = int(sp["maxit"]) if float(sp["maxit"]) == int(sp["maxit"]) else float(sp["maxit"])
         ts = _resolve_times(op.get("tsave", []), times, hs, t0, tottime, H)
         ts = _increasing(ts, t0)
         if not ts and not stop:
@@ -577,12 +577,12 @@ class Executor:
         if op.get("np_args"):
             cfl_arg = np.float64(cfl)
             if stop is not None and shared is None:
-                if "maxit" in stop:
+                if "maxit" in stop and isinstance(stop["maxit"], int):
                     stop["maxit"] = np.int64(stop["maxit"])
                 if "tottime" in stop:
                     stop["tottime"] = np.float64(stop["tottime"])
         # -- the call --------------------------------------------------------
-        self.rec.begin_op(i, solver, r.fault_specs)
+        self.rec.begin_op(i, solver, r.fault_specs, budget=op.get("budget"))
         fn = solver.solve if r.kind == "solve" else solver.restart
         saved_stdout = sys.stdout
         try:
